@@ -514,6 +514,12 @@ func (g *Gen) writeSet(fn *ssa.Function, blocks []*ssa.BasicBlock, seen map[*ssa
 				if !addLoc(i.Addr) {
 					return nil, true
 				}
+			case *ssa.UnOp:
+				if i.Op == token.ARROW {
+					ct := types.Unalias(i.X.Type()).Underlying().(*types.Chan)
+					c1, _ := g.recvComp(ct)
+					comps[c1] = true
+				}
 			case *ssa.Send:
 				ct := types.Unalias(i.Chan.Type()).Underlying().(*types.Chan)
 				c1, c2 := g.chanComps(ct)
